@@ -35,6 +35,15 @@
 // (empty or carrying one of the cast) arriving in the middle; every verdict
 // against an independent predicate, every listing payable, every distinct pool
 // content proposed to a replica.
+//
+// Fourth round (r4_encodings_test.go, family `encodings`): every single-site
+// re-spelling (boolean bytes, longer var-ints, key forms, scope / action bytes,
+// trailing bytes) and every single-byte substitution of a menu of transactions
+// with every field kind, on the paths that take BYTES (NewTransactionFromBytes,
+// RPC sendrawtransaction with the raw parameter, the P2P CMDTX message, the lax
+// block-body codec), witnesses made over the hash the node takes from the
+// bytes; what the node accepts must keep the hash told to the submitter through
+// pool, read-back, proposed block and replicas.
 package c07
 
 import (
@@ -180,6 +189,8 @@ type env struct {
 	reb         rebuiltCount
 	// third extension round (r3_payers_test.go)
 	pay payersCount
+	// fourth extension round (r4_encodings_test.go)
+	enc encCount
 }
 
 // scenario of a state.
@@ -504,7 +515,13 @@ func TestCheck(t *testing.T) {
 		scriptCov = e.runScripts()
 	}
 	t1 := time.Now()
-	var attrBlockCov, staleCov, countCov, rebuiltCov, payersCov map[string]any
+	var attrBlockCov, staleCov, countCov, rebuiltCov, payersCov, encodingsCov map[string]any
+	te0 := time.Now()
+	if want("encodings") {
+		encodingsCov = e.runEncodings()
+	}
+	tEnc := time.Since(te0)
+	t1 = time.Now()
 	if want("rebuilt") {
 		rebuiltCov = e.runRebuilt()
 	}
@@ -529,7 +546,7 @@ func TestCheck(t *testing.T) {
 		feeCov = e.runFee()
 	}
 	t3 := time.Now()
-	fmt.Printf("C07 phases: sound+enc %.1fs, rebuilt %.1fs, proposable %.1fs (of which payers %.1fs), fee+enc %.1fs\n", t1.Sub(t0).Seconds(), t1b.Sub(t1).Seconds(), t2.Sub(t1b).Seconds(), tPayers.Seconds(), t3.Sub(t2).Seconds())
+	fmt.Printf("C07 phases: sound+enc %.1fs, encodings %.1fs, rebuilt %.1fs, proposable %.1fs (of which payers %.1fs), fee+enc %.1fs\n", t1.Sub(t0).Seconds()-tEnc.Seconds(), tEnc.Seconds(), t1b.Sub(t1).Seconds(), t2.Sub(t1b).Seconds(), tPayers.Seconds(), t3.Sub(t2).Seconds())
 	e.f.flush(r)
 	pprof.StopCPUProfile()
 	distinct := func(sub string) int { return len(e.outs[sub]) }
@@ -550,12 +567,17 @@ func TestCheck(t *testing.T) {
 			"blocks_in_the_middle": int(e.pay.midBlocks.Get()), "blocks_in_the_middle_carrying_a_cast_tx": int(e.pay.midBlocksWithTx.Get()), "block_jobs_skipped_as_the_tx_is_unpayable": int(e.pay.midUnbuildable.Get()), "distinct_pool_contents_proposed": int(e.pay.proposals.Get()),
 			"submissions_where_only_the_payer_of_the_leaving_tx_decides": int(e.pay.creditFlips.Get()), "variants_not_buildable": int(e.pay.unbuildable.Get()),
 			"distinct_outcomes": distinct("payers"), "distinct_proposal_outcomes": distinct("payers-proposal")},
+		"encodings": map[string]any{"menu_transactions": int(e.enc.items.Get()), "sites_with_another_spelling": int(e.enc.sites.Get()), "candidates_x_paths": int(e.enc.candidates.Get()),
+			"candidates_the_lax_codec_reads_as_the_same_content": int(e.enc.sameMeaning.Get()), "submissions": int(e.enc.submissions.Get()), "refused": int(e.enc.refused.Get()), "accepted": int(e.enc.accepted.Get()),
+			"witnesses_made_over_a_node_hash_other_than_the_canonical_one": int(e.enc.resigned.Get()), "proposals_from_accepted_bytes": int(e.enc.proposals.Get()), "getrawtransaction_read_backs": int(e.enc.rpcReadBack.Get()),
+			"byte_sweep_decoder_calls": int(e.enc.sweep.Get()), "byte_sweep_accepted_though_not_their_own_re_encoding": int(e.enc.sweepLax.Get()),
+			"distinct_outcomes": distinct("encodings")},
 	}
 	cov := map[string]any{
 		"extension_families":                       ext,
 		"states":                                   e.count.states.Len(),
-		"transitions":                              int(e.count.sound.Get() + e.count.fee.Get() + e.count.encVerdict.Get() + e.count.block.Get() + e.count.e2e.Get() + e.count.stale.Get() + e.count.countFam.Get() + e.reb.submissions.Get() + e.reb.packs.Get() + e.pay.admissions.Get() + e.pay.proposals.Get()),
-		"traces_validated_against_impl":            int(e.count.sound.Get() + e.count.fee.Get() + e.count.encVerdict.Get() + e.count.block.Get() + e.count.e2e.Get() + e.count.stale.Get() + e.count.countFam.Get() + e.reb.submissions.Get() + e.reb.packs.Get() + e.pay.admissions.Get() + e.pay.proposals.Get()),
+		"transitions":                              int(e.count.sound.Get() + e.count.fee.Get() + e.count.encVerdict.Get() + e.count.block.Get() + e.count.e2e.Get() + e.count.stale.Get() + e.count.countFam.Get() + e.reb.submissions.Get() + e.reb.packs.Get() + e.pay.admissions.Get() + e.pay.proposals.Get() + e.enc.submissions.Get() + e.enc.proposals.Get()),
+		"traces_validated_against_impl":            int(e.count.sound.Get() + e.count.fee.Get() + e.count.encVerdict.Get() + e.count.block.Get() + e.count.e2e.Get() + e.count.stale.Get() + e.count.countFam.Get() + e.reb.submissions.Get() + e.reb.packs.Get() + e.pay.admissions.Get() + e.pay.proposals.Get() + e.enc.submissions.Get() + e.enc.proposals.Get()),
 		"sound_submissions":                        int(e.count.sound.Get()),
 		"sound_rejections_checked_for_no_effect":   int(e.count.soundRej.Get()),
 		"fee_threshold_transactions":               int(e.count.fee.Get()),
@@ -574,6 +596,13 @@ func TestCheck(t *testing.T) {
 		"proposable_count_varint_cases":            int(e.count.countFam.Get()),
 		"rebuilt_caches":                           rebuiltCov,
 		"proposable_payers":                        payersCov,
+		"encodings_on_the_byte_paths":              encodingsCov,
+		"encodings_candidates_x_paths":             int(e.enc.candidates.Get()),
+		"encodings_submissions":                    int(e.enc.submissions.Get()),
+		"encodings_accepted":                       int(e.enc.accepted.Get()),
+		"encodings_proposals":                      int(e.enc.proposals.Get()),
+		"encodings_distinct_outcomes":              distinct("encodings"),
+		"encodings_byte_sweep_decoder_calls":       int(e.enc.sweep.Get()),
 		"proposable_payers_submissions":            int(e.pay.admissions.Get()),
 		"proposable_payers_pool_contents_proposed": int(e.pay.proposals.Get()),
 		"sound_end_to_end_blocks":                  int(e.count.e2e.Get()),
@@ -605,6 +634,7 @@ func TestCheck(t *testing.T) {
 		"rebuilt: not driven - state jump (statesync), nodes with RemoveUntraceableBlocks/KeepOnlyLatestState; not judged - whether a BLOCK carrying an inadmissible transaction is rejected by a rebuilt node (the statement is about pool admission and proposed blocks; the proposals of rebuilt nodes must be accepted by a never-restarted replica, which is judged)",
 		"state whitelist: the witness cost of scripts that call a whitelisted method comes from a verification run on the node (as for all non-standard witnesses); what is demanded is that it is the acceptance threshold and the same on every node kind, not its absolute value",
 		"payers: balances and Notary deposits of the accounts S and R are known from the funding block of the history (checked once against the getters); the predicate for a submission to a non-empty pool is computed from GetVerifiedTransactions before the call: not pooled, shares a signer with every pooled transaction it names, network fee higher than the sum of the network fees of the pooled transactions it names or that name it and carry its author's signature, and the payer (sender, or Notary + depositor) can pay it plus what stays pooled; that the fees of the payer's OWN transactions leaving in the same admission are credited is what mempool.checkTxConflicts documents (step 3), that nobody else's are is what the proposable clause needs; error classes are counted, not demanded; whether bystanders stay pooled is not judged",
+		"encodings (byte paths): a re-spelling is 'the same content' when the lax block-body codec (Transaction.DecodeBinary) reads it and re-encodes it to the canonical bytes - counted, never demanded; the witnesses of a candidate are made over the hash the path's own decoder reports for those bytes; nothing is demanded of bytes the node refuses; for bytes it accepts: hash told = hash of the pooled transaction's own serialisation, Size() = its length, GetTransaction / getrawtransaction hand out bytes that decode to the hash told, the proposal from that pool is accepted by a replica, proposer and a second replica know the transaction under the hash told; the RPC server and the P2P message decoder are driven with the raw bytes (base64 parameter, CMDTX payload framed by network.Message); in the quick tier the proposal for same-content re-spellings accepted by the lax codec path (all of them, by design) is made for the first of each (transaction, kind, part) class",
 		"not demanded (no rule in this code base, statement silent): push-only invocation scripts; well-formedness beyond what the VM loader checks for witness scripts is taken from the node's own error class only in the variants custom-*-malformed",
 	})
 }
